@@ -19,14 +19,14 @@ ASSUMPTIONS = ['points within 1e-9 (relative) of an inequality boundary, or wher
                'equalities are judged with relative tolerance 1e-8 at points constructed on the manifold',
                'simplify is called with all=True; a case is the conjunction of its lines, the result the disjunction of its cases']
 CLASSES = {
-    'linear': {'quick': 260, 'thorough': 8000},
-    'rational': {'quick': 120, 'thorough': 4000},
-    'solve': {'quick': 80, 'thorough': 2500},
-    'matrix_text': {'quick': 300, 'thorough': 8000},
-    'mirror_pairs': {'quick': 150, 'thorough': 3000},
-    'exact_lattice': {'quick': 300, 'thorough': 6000},
-    'hostile_zero_rhs': {'quick': 16, 'thorough': 200},
-    'hostile_contradiction': {'quick': 16, 'thorough': 200},
+    'linear': {'quick': 520, 'thorough': 8000},
+    'rational': {'quick': 240, 'thorough': 4000},
+    'solve': {'quick': 160, 'thorough': 2500},
+    'matrix_text': {'quick': 600, 'thorough': 8000},
+    'mirror_pairs': {'quick': 300, 'thorough': 3000},
+    'exact_lattice': {'quick': 600, 'thorough': 6000},
+    'hostile_zero_rhs': {'quick': 32, 'thorough': 200},
+    'hostile_contradiction': {'quick': 32, 'thorough': 200},
 }
 MIN_EVENTS = {'quick': {'points_judged': 20000, 'assert:same': 350, 'assert:text': 250, 'exact_boundary_points_judged': 3000}}
 CASE_TIMEOUT = 300
